@@ -424,3 +424,26 @@ def check_cursor(ctx, f, node, name, ix, post, an=None):
     if not (off[0] is not None and off[0] >= 0):
         why.append("the cursor can stand before the array (offset %s)" % (off[0] if off[0] is not None else "unbounded"))
     return Verdict(node, n, off, None, "violated", "; ".join(why), pb[1])
+
+
+# --------------------------------------------------------------------------
+# abstract input regions: "for every input in region R the function does not return TRUE"
+
+def returns_reachable(ctx, f, region, want_true=True):
+    """Abstractly execute f from the entry state `region` ({access path: interval} on fields
+    reached through its pointer parameters).  Returns (list of reachable return nodes whose
+    value may be non-zero (want_true) / zero, paths of the region that matched no expression)."""
+    an = absint.Analysis(ctx, f, {}, extra_init=region).run()
+    hits = []
+    for bid, i in flow.all_events(f):
+        e = f.exprs[i]
+        if e["k"] == "ret" and e.get("c"):
+            st = an.state_before(i)
+            if st is None:
+                continue
+            v = an.eval(st, e["c"][0])
+            may_nz = not (v == (0, 0))
+            may_z = v[0] is None or v[1] is None or v[0] <= 0 <= v[1]
+            if (want_true and may_nz) or (not want_true and may_z):
+                hits.append(i)
+    return hits, getattr(an, "extra_missing", [])
